@@ -5,7 +5,7 @@ let run_monitor (pid : string) parse_cfg parse_label parse_obs (lines : string l
   match lines with
   | [] -> print_endline "OK"
   | c :: rest ->
-      let cfg = parse_cfg c in
+      let cfg = parse_cfg c rest in
       let obs = L.map (fun line ->
           let (ls, os) = split_line line in
           parse_obs (parse_label ls) os) rest in
